@@ -16,6 +16,8 @@ import (
 
 	"github.com/mgtv-tech/redis-GunYu/config"
 	"github.com/mgtv-tech/redis-GunYu/pkg/rdb"
+	"github.com/mgtv-tech/redis-GunYu/pkg/redis/checkpoint"
+	"github.com/mgtv-tech/redis-GunYu/pkg/redis/client"
 )
 
 // Scenario is one snapshot replay.
@@ -146,6 +148,21 @@ func Run(sc *Scenario, hooks func(srv *fakeredis.Server, cancel context.CancelFu
 	cfg.Filter = config.FilterConfig{DbBlacklist: sc.DbBlack}
 	if len(sc.PrefixBlack) > 0 {
 		cfg.Filter.KeyFilter = &config.FilterKeyConfig{PrefixKeyBlacklist: sc.PrefixBlack}
+	}
+	if sc.Bisync {
+		// what syncer.newOutput does for bisync: resolve (or create) the bisync namespace and use
+		// it as the checkpoint name; replay mode sync (the snapshot path is the same in all modes)
+		cli, err := client.NewRedis(cfg.Redis)
+		if err != nil {
+			return nil, "bisync namespace: " + err.Error()
+		}
+		name, err := checkpoint.ResolveOrCreateBisyncCheckpointName(cli, ids)
+		cli.Close()
+		if err != nil {
+			return nil, "bisync namespace: " + err.Error()
+		}
+		cfg.CheckpointName = name
+		cfg.ReplayMode = config.ReplayModeSync
 	}
 	ss, err := drive.NewSession(cfg, ids)
 	if err != nil {
